@@ -159,7 +159,8 @@ pub fn main(a: Args) -> i32 {
     let mut distinct = std::collections::HashSet::new();
     let mut id = 0usize;
     let replay_lines: Vec<String> = a.replay.as_ref().map(|p| std::fs::read_to_string(p).unwrap().lines().filter(|l| !l.trim().is_empty() && !l.starts_with('#')).map(|s| s.to_string()).collect()).unwrap_or_default();
-    let total = if a.replay.is_some() { replay_lines.len() } else { n };
+    let main_lines: Vec<String> = replay_lines.iter().filter(|l| !l.contains(" CLASH=1")).cloned().collect();
+    let total = if a.replay.is_some() { main_lines.len() } else { n };
     for it in 0..total {
         // ---- generate
         let mut src: Vec<(String, Vec<u8>, i64, u32)> = vec![];
@@ -218,7 +219,7 @@ pub fn main(a: Args) -> i32 {
                 if v == "-" { return vec![]; }
                 v.split(';').map(|e| { let f: Vec<&str> = e.split(':').collect(); (String::from_utf8_lossy(&unhex(f[0])).into_owned(), unhex(f[1]), f[2].parse().unwrap(), 0u32) }).collect()
             };
-            for f in replay_lines[it].split_whitespace().skip(1) {
+            for f in main_lines[it].split_whitespace().skip(1) {
                 if let Some((k, v)) = f.split_once('=') {
                     match k {
                         "SRC" => src = tree(v),
@@ -357,6 +358,94 @@ pub fn main(a: Args) -> i32 {
             out.sample(smp);
         }
         id += 1;
+    }
+    // ---- file-vs-directory clashes between the two trees (both are trees of regular files): checked by the oracles only -
+    // the flat-path model has no such states.  Whatever the run does with the clashing path (it fails that delivery),
+    // nothing outside the plan may be touched: without --delete nothing is removed, excluded files stay, the source is
+    // never modified, a dry run changes nothing (C04 last sentence, C15).
+    if a.replay.is_none() || replay_lines.iter().any(|l| l.contains(" CLASH=1")) {
+        let nclash = if a.replay.is_some() { 0 } else if a.tier == "thorough" { 120 } else { 18 };
+        let mut scen: Vec<(Vec<(String, Vec<u8>, i64, u32)>, Vec<(String, Vec<u8>, i64, u32)>, Vec<String>, bool, u64)> = vec![];
+        for l in replay_lines.iter().filter(|l| l.contains(" CLASH=1")) {
+            let tree = |v: &str| -> Vec<(String, Vec<u8>, i64, u32)> {
+                if v == "-" { return vec![]; }
+                v.split(';').map(|e| { let f: Vec<&str> = e.split(':').collect(); (String::from_utf8_lossy(&unhex(f[0])).into_owned(), unhex(f[1]), f[2].parse().unwrap(), 0u32) }).collect()
+            };
+            let (mut s_, mut d_, mut ex_, mut del_, mut dir_) = (vec![], vec![], vec![], false, 0u64);
+            for f in l.split_whitespace().skip(1) {
+                if let Some((k, v)) = f.split_once('=') {
+                    match k {
+                        "SRC" => s_ = tree(v),
+                        "DST" => d_ = tree(v),
+                        "EX" if v != "-" => ex_ = v.split(',').map(|x| String::from_utf8_lossy(&unhex(x)).into_owned()).collect(),
+                        "DEL" => del_ = v == "1",
+                        "DIR" => dir_ = match v { "push" => 1, "pull" => 2, _ => 0 },
+                        _ => {}
+                    }
+                }
+            }
+            scen.push((s_, d_, ex_, del_, dir_));
+        }
+        for k in 0..nclash {
+            let t = 1_600_000_000i64 + k as i64;
+            let body = |r: &mut Rng| r.pick(&pool[1..5]).clone();
+            let (s_, d_) = if k % 2 == 0 {
+                // a regular file in the source where the destination has a non-empty directory
+                (vec![("notes".to_string(), body(&mut r), t, 0u32), ("keep.txt".to_string(), body(&mut r), t, 0)],
+                 vec![("notes/cache.log".to_string(), body(&mut r), t - 5, 0u32), ("notes/old.txt".to_string(), body(&mut r), t - 7, 0), ("other".to_string(), body(&mut r), t - 9, 0)])
+            } else {
+                // a directory in the source where the destination has a regular file
+                (vec![("d/x".to_string(), body(&mut r), t, 0u32), ("d/sub/y".to_string(), body(&mut r), t, 0), ("keep.txt".to_string(), body(&mut r), t, 0)],
+                 vec![("d".to_string(), body(&mut r), t - 5, 0u32), ("other".to_string(), body(&mut r), t - 9, 0)])
+            };
+            let ex_: Vec<String> = match k % 3 { 0 => vec![], 1 => vec!["*.log".to_string()], _ => vec!["other".to_string()] };
+            scen.push((s_, d_, ex_, k % 4 == 3, (k as u64 / 2) % 3));
+        }
+        for (src, dst, excludes, del, dir) in scen {
+            write_tree(&srcd, &src);
+            write_tree(&dstd, &dst);
+            let src_before = read_tree(&srcd);
+            let dst_before = read_tree(&dstd);
+            let (sarg, darg) = match dir {
+                0 => (srcd.clone(), dstd.clone()),
+                1 => (srcd.clone(), format!("hosty:{}", dstd)),
+                _ => (format!("hosty:{}", srcd), dstd.clone()),
+            };
+            let mut args: Vec<String> = vec![];
+            if del { args.push("--delete".into()); }
+            for e in &excludes { args.push(format!("--exclude={}", e)); }
+            let ex_str = if excludes.is_empty() { "-".to_string() } else { excludes.iter().map(|e| hex(e.as_bytes())).collect::<Vec<_>>().join(",") };
+            let dirname = ["local", "push", "pull"][dir as usize];
+            out.line("cases-oracle.txt", &format!("{} SRC={} DST={} EX={} DEL={} DRY=0 ORDER=- FAIL=- DIR={} CLASH=1", id, case_tree(&src_before), case_tree(&dst_before), ex_str, del as u8, dirname));
+            let class = format!("clash:{}:{}", dirname, if del { "delete" } else { "nodelete" });
+            let mut dargs = args.clone(); dargs.push("-n".into()); dargs.push(sarg.clone()); dargs.push(darg.clone());
+            let _o1 = run_sync(&cx, &dargs, &[]);
+            if read_tree(&srcd) != src_before || read_tree(&dstd) != dst_before {
+                nfail += 1;
+                out.line("specfail.txt", &format!("{} C15 --dry-run changed a tree ({})", id, class));
+            }
+            let mut rargs = args.clone(); rargs.push(sarg.clone()); rargs.push(darg.clone());
+            let o2 = run_sync(&cx, &rargs, &[]);
+            let dst_after = read_tree(&dstd);
+            if read_tree(&srcd) != src_before {
+                nfail += 1;
+                out.line("specfail.txt", &format!("{} C04 the source tree was modified ({})", id, class));
+            }
+            let exs = excludes.clone();
+            let is_ex = |p: &String| crate::c19::excluded_spec(p, &exs);
+            for (p, v) in &dst_before {
+                if src_before.contains_key(p) && !is_ex(p) { continue; }            // a planned transfer may replace it
+                let may_go = del && !src_before.contains_key(p) && !is_ex(p);
+                if !may_go && dst_after.get(p) != Some(v) {
+                    nfail += 1;
+                    let tag = if is_ex(p) { "C15 an excluded destination file" } else if !del { "C15 without --delete a destination file" } else { "C04 a destination file outside the plan" };
+                    out.line("specfail.txt", &format!("{} {} was removed or modified: {:?} (exit {:?}, {})", id, tag, p, o2.code, class));
+                }
+            }
+            out.count("clash_scenarios");
+            out.count(&format!("class_{}", class));
+            id += 1;
+        }
     }
     let _ = std::fs::remove_dir_all(&srcd);
     let _ = std::fs::remove_dir_all(&dstd);
